@@ -223,23 +223,20 @@ Proof.
   destruct (bytes_eqb (k_key k1) k); intro H; [injection H as <- <-; left; reflexivity|right; auto].
 Qed.
 
-(* the boolean form of "at least as visible" (the flags are kept by construction) *)
-Definition vis_side (a b : tbl) : bool :=
-  implb (hl a) (hl b) && implb (ph a) (ph b || hl b).
+(* the boolean form of "at least as visible" (the flags are kept by construction): a line or a header
+   before, a line or a header after *)
+Definition vis_side (a b : tbl) : bool := implb (hl a || ph a) (hl b || ph b).
 Lemma vis_side_Rt a b :
   t_dotted a = t_dotted b -> t_implicit a = t_implicit b -> vis_side a b = true -> Rt a b.
 Proof.
-  intros Hd Hi H. apply andb_true_iff in H as [H1 H2]. repeat split; auto.
-  - intro E. rewrite E in H1. exact H1.
-  - intro E. rewrite E in H2. simpl in H2. apply orb_true_iff in H2. exact H2.
+  intros Hd Hi H. repeat split; auto. intro E. unfold vis_side in H. rewrite E in H. exact H.
 Qed.
 (* a table that has a key/value line is visible whatever it was before *)
 Lemma has_line_Rt a b :
   t_dotted a = t_dotted b -> t_implicit a = t_implicit b -> has_line b = true -> Rt a b.
 Proof.
-  intros Hd Hi Hl. repeat split; auto; unfold hl, ph; rewrite <- Hd.
-  - intro E. apply andb_true_iff in E as [E _]. rewrite E, Hl. reflexivity.
-  - intros _. destruct (t_dotted a); simpl; [right; exact Hl|left]. rewrite (shown_true _ Hl). reflexivity.
+  intros Hd Hi Hl. repeat split; auto. intros _. unfold hl, ph.
+  destruct (t_dotted b); simpl; [rewrite Hl; reflexivity|]. rewrite (shown_true _ Hl). reflexivity.
 Qed.
 
 (* rebuilding a table node in its slot *)
@@ -841,9 +838,9 @@ Proof.
     + apply (all_P_perm _ _ _ (kv_sort_keys_perm _)). apply all_P_map. apply all_P_forall. intros [k i] Hin.
       destruct (all_P_In _ _ _ Ha Hin) as [Hk Hi]. split; [exact Hk|]. simpl.
       destruct i as [|v|[m0 d0 im0 dt0 p0 sp0]|]; try exact Hi. destruct dt0; [|exact Hi].
-      pose proof (IH _ Hin) as IHk. cbn [snd] in IHk. destruct IHk as (Hwf & Hl & _ & Hdd & _).
+      pose proof (IH _ Hin) as IHk. cbn [snd] in IHk. destruct IHk as (Hwf & Hl & Hph & Hdd & _).
       destruct Hi as [Hs Hv]. split; [apply Hwf; exact Hs|].
-      unfold vis_cond in *. rewrite Hdd, Hl. exact Hv.
+      unfold vis_cond in *. rewrite Hdd, Hl, Hph. exact Hv.
   - rewrite !has_line_eq. apply Hex. exact Hgl.
   - rewrite !prints_header_eq. apply Hex. exact Hgp.
 Qed.
@@ -973,9 +970,9 @@ Proof.
     + apply (all_P_perm _ _ _ (kv_sort_by_perm _ _)). apply all_P_map. apply all_P_forall. intros [k i] Hin.
       destruct (all_P_In _ _ _ Ha Hin) as [Hk Hi]. split; [exact Hk|]. simpl.
       destruct i as [|v|[m0 d0 im0 dt0 p0 sp0]|]; try exact Hi. destruct dt0; [|exact Hi].
-      pose proof (IH _ Hin) as IHk. cbn [snd] in IHk. destruct IHk as (Hwf & Hl & _ & Hdd & _).
+      pose proof (IH _ Hin) as IHk. cbn [snd] in IHk. destruct IHk as (Hwf & Hl & Hph & Hdd & _).
       destruct Hi as [Hs Hv]. split; [apply Hwf; exact Hs|].
-      unfold vis_cond in *. rewrite Hdd, Hl. exact Hv.
+      unfold vis_cond in *. rewrite Hdd, Hl, Hph. exact Hv.
   - rewrite !has_line_eq. apply Hex. exact Hgl.
   - rewrite !prints_header_eq. apply Hex. exact Hgp.
 Qed.
